@@ -131,6 +131,10 @@ pub trait Scenario: Sync {
     fn gen(rng: &mut Rng, tier: Tier, run: u64) -> Self::Trace;
     fn exec(t: &Self::Trace, out: &mut Outcome<Self::Trace>);
     fn shrink(t: &Self::Trace) -> Vec<Self::Trace>;
+    /// narrow a trace to the single enumerated case identified by a crash context
+    fn focus(_t: &Self::Trace, _ctx: [u64; 4]) -> Option<Self::Trace> {
+        None
+    }
     fn rule() -> &'static str;
     fn real_components() -> &'static [&'static str];
     fn simulated_components() -> &'static [&'static str];
@@ -395,7 +399,9 @@ pub fn run<S: Scenario>(cfg: &RunCfg) -> i32 {
                     for run in lo..hi {
                         let mut rng = Rng::new(run_seed(cfg.seed, S::TAG, run));
                         let trace = S::gen(&mut rng, cfg.tier, run);
+                        crate::supervisor::set_run(run);
                         let out = exec_one::<S>(&trace, false);
+                        crate::supervisor::set_run(u64::MAX);
                         bs.runs += 1;
                         bs.evals += out.evals;
                         bs.events += out.events;
